@@ -1,1 +1,5 @@
+pub mod alloc;
+pub mod auth;
+pub mod autoalloc;
 pub mod cluster;
+pub mod stream;
